@@ -45,16 +45,22 @@ partial def pS : P S := do
   | "T" => do let s ← pS; pure (.static s)
   | _ => throw s!"smp:{t}"
 
-mutual
-partial def showPt (ctx : Row) : Pt → String
-  | .prim v l j g => s!"{v}:L{l}#{j}:{if g.sub ctx then "own" else "other"}"
-  | .datum v id j => s!"{v}:D{id}#{j}"
-  | .moved id g p => s!"{showPt ctx p}:M{id}:{if g.sub ctx then "own" else "other"}"
-partial def showRow : Row → List String
+/-- cells of a row; a marker is printed as a suffix `:M<id>:<own|other>` of the following cells of its variables
+    (innermost motion first) -/
+partial def showRowAux (pending : List (Nat × Nat × Bool)) : Row → List String
   | .nil => []
   | .ext i _ => [s!"@{i}"]
-  | .cons p r => showPt r p :: showRow r
-end
+  | .cons (.marker id vs g) r => showRowAux ((id, vs.length, g.sub r) :: pending) r
+  | .cons p r =>
+    let base := match p with
+      | .prim v l j g => s!"{v}:L{l}#{j}:{if g.sub r then "own" else "other"}"
+      | .datum v id j => s!"{v}:D{id}#{j}"
+      | .marker _ _ _ => ""
+    let suffix := String.join (pending.map fun (id, _, f) => s!":M{id}:{if f then "own" else "other"}")
+    let pending' := (pending.map fun (id, c, f) => (id, c - 1, f)).filter fun (_, c, _) => c > 0
+    (base ++ suffix) :: showRowAux pending' r
+
+def showRow (r : Row) : List String := showRowAux [] r
 
 /-- what the real code rejects before any row is produced -/
 def disjoint (a b : List Var) : Bool := a.all (· ∉ b)
